@@ -249,9 +249,10 @@ def tet_fem_stiffness(V, C):
     K = np.zeros((n, n))
     for c in C:
         c = [int(v) for v in c]
-        Emat = np.c_[np.ones(4), V[c]]
-        G = np.linalg.inv(Emat)[1:, :]  # column a = gradient of the hat function of local vertex a
-        vol = abs(float(np.linalg.det(Emat))) / 6.0
+        Dm = V[c[1:]] - V[c[0]]          # rows: edge vectors p1-p0, p2-p0, p3-p0 (all of the size of the cell: unit independent)
+        Gi = np.linalg.inv(Dm)           # column a-1 = gradient of the hat function of local vertex a (a = 1, 2, 3)
+        G = np.c_[-Gi.sum(axis=1), Gi]   # 3 x 4, the hat functions sum to 1
+        vol = abs(float(np.linalg.det(Dm))) / 6.0
         Kt = vol * (G.T @ G)
         for a in range(4):
             for b in range(4):
